@@ -152,6 +152,9 @@ func runC17(p *Prog, r *Report, tier string) {
 	if dts, first, dels, adds := templateDecoderAnchors(p); dts != nil {
 		checkInvalidate(p, r, dts, first, dels, adds)
 	}
+	// the placeholder of an unknown element carries the length the TEMPLATE announced: a re-sent template must replace the
+	// stored field list even when the element ids are unchanged (C04's unconditional-replacement rule)
+	checkTemplateReplace(p, r)
 	// keep mode: "exactly the bytes received" must stay true after the next message is read (C11's framing/alias rules)
 	checkFraming(p, r)
 	// (2) data reader
